@@ -239,6 +239,7 @@ func C01(r *core.Run) {
 	rule105(r)
 	rule0111(r)
 	rule0112(r, "C01")
+	rule0213(r)
 	rule0113(r)
 }
 
